@@ -81,4 +81,77 @@ theorem run_last {s0 base : St} {ops : List Op} {outs : List Out} {op : Op} {a :
   have := List.append_inj h2 hlen
   exact ⟨h1.symm, by simpa using this.2.symm⟩
 
+/-! ### no value ever exceeds `cap` (the code's `uint64` arithmetic never wraps), also mid-section -/
+
+theorem base_bnd {s0 : St} {c : Cfg Shared Thread} (h0 : Seq.Inv s0) (hb0 : Bnd s0) (hi : Inv s0 c) :
+    Bnd c.1.base := by
+  have := bnd_final (histOps c.1.hist) hi.wf h0 hb0
+  rw [← run_fst', hi.run] at this
+  exact this
+
+/-- The stored mark and the object's counters are at most `cap`. -/
+def BndC (st : St) : Prop := mark st ≤ cap ∧ ∀ o, st.obj = some o → o.next ≤ cap ∧ o.reserved ≤ cap
+
+theorem bndC_base {b : St} (hi : Seq.Inv b) (hb : Bnd b) : BndC b :=
+  ⟨hb.mark_le, fun o ho => ⟨Nat.le_trans (hb.next_le o ho) hb.mark_le, Nat.le_trans (hi.res_le o ho) hb.mark_le⟩⟩
+
+theorem pcOk_bnd {s : Shared} {id : Nat} {pc : Pc} (hi : Seq.Inv s.base) (hb : Bnd s.base) (h : PcOk s id pc)
+    (hin : pc.inside = true) : BndC s.st := by
+  have hB := bndC_base hi hb
+  have hmk := hb.mark_le
+  cases pc with
+  | idle => cases hin
+  | nTest => rw [h.1]; exact hB
+  | rTest => rw [h.1]; exact hB
+  | uGet => rw [h.1]; exact hB
+  | uNext m => rw [h.1]; exact hB
+  | rSet => rw [h.1]; exact hB
+  | unlock a => rw [h.1]; exact hB
+  | uSet =>
+    obtain ⟨_, o, hbo, _, _, hst⟩ := h
+    rw [hst]
+    refine ⟨hmk, fun o' ho' => ?_⟩
+    simp only [Option.some.injEq] at ho'; subst ho'
+    exact ⟨hmk, (hB.2 o hbo).2⟩
+  | uRes r =>
+    obtain ⟨_, o, hbo, _, _, _, hst⟩ := h
+    rw [hst]
+    refine ⟨?_, fun o' ho' => ?_⟩
+    · simpa [mark] using lease_cap _ o.interval hmk
+    · simp only [Option.some.injEq] at ho'; subst ho'
+      exact ⟨hmk, (hB.2 o hbo).2⟩
+  | nHand =>
+    rcases h with ⟨hst, _⟩ | ⟨_, o, hbo, _, _, hst⟩
+    · rw [hst]; exact hB
+    · rw [hst]
+      refine ⟨?_, fun o' ho' => ?_⟩
+      · simpa [mark] using lease_cap _ o.interval hmk
+      · simp only [Option.some.injEq] at ho'; subst ho'
+        exact ⟨hmk, lease_cap _ o.interval hmk⟩
+  | rRes =>
+    obtain ⟨_, o, hbo, _, hst⟩ := h
+    rw [hst]
+    refine ⟨?_, fun o' ho' => ?_⟩
+    · simpa [mark] using (hB.2 o hbo).1
+    · have : s.base.obj = some o' := ho'
+      exact hB.2 o' this
+
+theorem conc_bnd {s0 : St} {c : Cfg Shared Thread} (h0 : Seq.Inv s0) (hb0 : Bnd s0) (hi : Inv s0 c) :
+    BndC c.1.st := by
+  have hib := base_inv h0 hi
+  have hbb := base_bnd h0 hb0 hi
+  cases hh : c.1.holder with
+  | none => rw [(hi.quiet hh).1]; exact bndC_base hib hbb
+  | some h =>
+    have hc := hi.cnt
+    rw [hh] at hc
+    have hpos : 0 < c.2.countP (pIn c.1.epoch) := by rw [hc]; simp
+    obtain ⟨t, ht, hp⟩ := List.countP_pos_iff.mp hpos
+    cases t with
+    | env rs => simp [pIn] at hp
+    | gor g =>
+      simp only [pIn, Bool.and_eq_true, beq_iff_eq] at hp
+      obtain ⟨_, hok⟩ := (hi.threads _ ht).2 hp.1 hp.2
+      exact pcOk_bnd hib hbb hok hp.2
+
 end Hive.Seq.Conc
